@@ -26,6 +26,7 @@ import (
 	"strconv"
 	"strings"
 	"sync"
+	"time"
 
 	"verif/internal/minilua"
 )
@@ -62,7 +63,12 @@ const (
 	FaultDropReply         // execute the request, then close the connection without replying
 	FaultResetBefore       // receive the whole request, do not execute it, reset the connection
 	FaultResetMid          // read only the first bytes of the request, reset the connection
+	FaultSlowReply         // execute the request, deliver the reply SlowReplyDelay (wall clock) later
 )
+
+// SlowReplyDelay is how long a FaultSlowReply holds the reply back.  Wall clock: it only shapes
+// the schedule (a caller with a shorter deadline gives up first), no verdict depends on it.
+var SlowReplyDelay = 80 * time.Millisecond
 
 func (f Fault) String() string {
 	switch f {
@@ -72,6 +78,8 @@ func (f Fault) String() string {
 		return "reset-before-exec"
 	case FaultResetMid:
 		return "reset-mid-request"
+	case FaultSlowReply:
+		return "slow-reply"
 	}
 	return ""
 }
@@ -451,6 +459,8 @@ func (s *Store) serve(id int64, c net.Conn) {
 		case FaultResetBefore:
 			reset(c)
 			return
+		case FaultSlowReply:
+			time.Sleep(SlowReplyDelay)
 		}
 		writeReply(bw, reply)
 		if err := bw.Flush(); err != nil {
@@ -515,7 +525,7 @@ func (s *Store) handle(cs *connState, args []string) (reply interface{}, fault F
 		e.After = s.state(cs.db, e.Key)
 	}
 	e.Reply = renderShort(reply)
-	e.Delivered = fault == FaultNone
+	e.Delivered = fault == FaultNone || fault == FaultSlowReply
 	e.Seq = int64(len(s.log) + 1)
 	s.log = append(s.log, e)
 	return reply, fault, cmd == "QUIT"
